@@ -298,6 +298,9 @@ def mujoco_worker(name: str, n: int, seed: int) -> dict:
         v = np.asarray(vals, dtype=np.float64)
         if physics and name in CONTACT_RICH:
             return bool(np.quantile(v, 0.25) <= TIGHT)      # a wrong formula shifts every sample; contact-solver noise only some
+        if physics:
+            # one MuJoCo C step against one MJX step: a contact that opens or closes in one simulator only gives a rare outlier
+            return bool(np.median(v) <= TIGHT and np.quantile(v, 0.9) <= LOOSE)
         return bool(np.median(v) <= TIGHT and np.max(v) <= LOOSE)
 
     physics_free = {"reward_ctrl", "reward_survive", "reward_quadctrl"}
